@@ -223,8 +223,13 @@ def derived(ctx, db, B, r, n):
         if hasattr(o, "GetQuantity"):
             ctx.ev()
             u = q.GetUnit()
-            if o.GetUnit() != u or (u and (u not in repr(o) or ("[%s]" % u) not in str(o))):
-                ctx.violation("derived:repr-or-str-does-not-show-the-unit", dict(case, unit=u, repr=repr(o)[:160], str=str(o)[:160]), replay=case)
+            try:
+                shown = (repr(o), str(o))
+            except Exception as e:
+                shown = None
+                ctx.violation("derived:repr-or-str-raised:%s" % type(e).__name__, dict(case, unit=u, error=str(e)[:160]), replay=case)
+            if shown is not None and (o.GetUnit() != u or (u and (u not in shown[0] or ("[%s]" % u) not in shown[1]))):
+                ctx.violation("derived:repr-or-str-does-not-show-the-unit", dict(case, unit=u, repr=shown[0][:160], str=shown[1][:160]), replay=case)
             if o.GetCategory() != s["category"] or o.GetQuantityType() != s["quantity_type"] or o.GetUnitName() != s["unit_name"]:
                 ctx.violation("derived:value-object-strings-differ-from-its-quantity", dict(case, object=[o.GetCategory(), o.GetQuantityType(), o.GetUnitName()], quantity=s), replay=case)
 
@@ -258,8 +263,13 @@ def simple(ctx, db):
                 want = (u, c, qt, db.GetUnitName(qt, u)) * 2
                 if got != want:
                     ctx.violation("simple:strings-differ-from-the-registered-ones", dict(case, got=list(got), expected=list(want)), replay=case)
-                if u not in repr(s) or ("[%s]" % u) not in str(s) or u not in repr(a) or ("[%s]" % u) not in str(a):
-                    ctx.violation("simple:repr-or-str-does-not-show-the-unit", dict(case, repr=repr(s), str=str(s), array_repr=repr(a), array_str=str(a)), replay=case)
+                try:
+                    sh = (repr(s), str(s), repr(a), str(a))
+                except Exception as e:
+                    sh = None
+                    ctx.violation("simple:repr-or-str-raised:%s" % type(e).__name__, dict(case, error=str(e)[:160]), replay=case)
+                if sh is not None and (u not in sh[0] or ("[%s]" % u) not in sh[1] or u not in sh[2] or ("[%s]" % u) not in sh[3]):
+                    ctx.violation("simple:repr-or-str-does-not-show-the-unit", dict(case, repr=sh[0], str=sh[1], array_repr=sh[2], array_str=sh[3]), replay=case)
                 # ... whatever the amount: zero, negative, huge, tiny, not a number, infinite (formatting treats some of these apart)
                 for label, x in (("nan", float("nan")), ("inf", float("inf")), ("-inf", float("-inf")), ("0", 0.0), ("-0", -0.0), ("huge", 1e300), ("tiny", 5e-324), ("negative", -2.5), ("int", 7)):
                     ctx.ev()
